@@ -143,7 +143,8 @@ Definition explain_sem_with (pinned : quirks) (c : sem_case) :=
 (** [OOfferErr]: the inner listener returns a permanent error; [OOfferTmp]: a temporary
     net.Error. Either way Accept gives its permit back and returns the error to its caller
     (no hidden retry): both are [LFail]. *)
-Inductive lop := OAccept | OOffer | OOfferErr | OOfferTmp | OClose (c : N) | OSetMax (n : Z).
+Inductive lop := OAccept | OOffer | OOfferErr | OOfferTmp | OClose (c : N) | OSetMax (n : Z)
+  | ORead (c : N).   (* a Read on connection c fails while it stays open: no label - only Close releases *)
 
 Record lobs := {
   l_cur : Z; l_real : Z; l_wq : list Z; l_held : Z; l_open : list N; l_blocked : Z;
@@ -194,6 +195,7 @@ Fixpoint ll_model (q : quirks) (s : lstate) (offers : list offer) (next : N) (op
         | OOfferErr | OOfferTmp => (s, offers ++ [OfErr], next)
         | OClose c => (lstep q s (LClose c), offers, next)
         | OSetMax n => (lrun q s [LSetMax n; LRun 0], offers, next)
+        | ORead _ => (s, offers, next)
         end in
       let '(s2, offers2) := ll_settle q (List.length offers1) s1 offers1 in
       ll_view s2 :: ll_model q s2 offers2 next1 t
@@ -249,6 +251,88 @@ Definition check_ll_with (pinned : quirks) (c : ll_case) : result :=
 
 Definition explain_ll_with (pinned : quirks) (c : ll_case) :=
   ll_model pinned (linit pinned (lc_M c) (lc_init c)) [] 0%N (lc_ops c).
+
+(** * group hs: HTTPServer runtime built from YAML, real net/http accept loop, keep-alive clients *)
+
+Inductive hop := HDial | HClose (c : N) | HReload (n : Z).
+
+Record hobs := {
+  h_decoded : Z; h_served : list N; h_waiting : Z; h_cur : Z; h_real : Z; h_wq : list Z; h_shr : Z;
+  h_skip : bool
+}.
+
+Record hs_case := {
+  hc_init : Z; hc_M : Z; hc_ops : list hop; hc_obs : list hobs; hc_desync : bool; hc_bad : bool
+}.
+
+Definition hobs_eqb (a b : hobs) : bool :=
+  (h_decoded a =? h_decoded b) && Nlist_eqb (h_served a) (h_served b) && (h_waiting a =? h_waiting b)
+  && (h_cur a =? h_cur b) && (h_real a =? h_real b) && Zlist_eqb (h_wq a) (h_wq b) && (h_shr a =? h_shr b)
+  && Bool.eqb (h_skip a) (h_skip b).
+
+(** the single accept loop of net/http: whenever it holds a permit the oldest waiting client
+    is accepted and served, and the loop asks for the next permit *)
+Fixpoint hs_settle (q : quirks) (fuel : nat) (s : lstate) (backlog : list N) : lstate * list N :=
+  match fuel, backlog with
+  | S f, c :: t =>
+      if (0 <? held s) && negb (crashed s) then hs_settle q f (lrun q s [LGot c; LAcquire]) t
+      else (s, backlog)
+  | _, _ => (s, backlog)
+  end.
+
+Fixpoint hs_model (q : quirks) (s : lstate) (backlog : list N) (next : N) (cap : Z) (ops : list hop) : list hobs :=
+  match ops with
+  | [] => []
+  | o :: t =>
+      (* harness protocol: a reload that is rejected by validation (n < 1) or would shrink the
+         capacity by exactly 1 is not issued *)
+      let skip := match o with HReload n => (n <? 1) || (Z.min n (size (ws s)) =? real s - 1) | _ => false end in
+      let '(s1, backlog1, next1, cap1) :=
+        match o with
+        | HDial => (s, backlog ++ [next], (next + 1)%N, cap)
+        | HClose c => (if mem_N c (opened s) then lstep q s (LClose c) else s, backlog, next, cap)
+        | HReload n => if skip then (s, backlog, next, cap)
+                       else (lrun q s [LSetMax n; LRun 0], backlog, next, n)
+        end in
+      let '(s2, backlog2) := hs_settle q (List.length backlog1) s1 backlog1 in
+      {| h_decoded := cap1; h_served := sortN (opened s2); h_waiting := Z.of_nat (List.length backlog2);
+         h_cur := cur (ws s2); h_real := real s2; h_wq := map snd (wq (ws s2));
+         h_shr := count_who WAdj (wq (ws s2)); h_skip := skip |} :: hs_model q s2 backlog2 next1 cap1 t
+  end.
+
+(** property checker on observed steps; [cap] is the value written in the YAML in force *)
+Fixpoint prop_hs_steps (M cap : Z) (prev : list N) (ops : list hop) (obs : list hobs) : bool :=
+  match ops, obs with
+  | [], [] => true
+  | o :: ot, st :: bt =>
+      let cap' := match o with HReload n => if h_skip st then cap else n | _ => cap end in
+      let nserved := Z.of_nat (List.length (h_served st)) in
+      let settled := h_shr st =? 0 in
+      (* the configured value is the one in force *)
+      (h_decoded st =? cap') &&
+      (* the cap on served, still open connections *)
+      (if settled then nserved <=? Z.min cap' M else true) &&
+      (* a waiting client is held back only while the cap is reached *)
+      (if settled && (0 <? h_waiting st) then Z.min cap' M <=? nserved else true) &&
+      (* no established connection is dropped (a reload included) *)
+      forallb (fun c => mem_N c (h_served st) || match o with HClose c' => N.eqb c c' | _ => false end) prev &&
+      prop_hs_steps M cap' (h_served st) ot bt
+  | _, _ => false
+  end.
+
+Definition check_hs_with (pinned : quirks) (c : hs_case) : result :=
+  let model q := hs_model q (lstep q (linit q (hc_M c) (hc_init c)) LAcquire) [] 0%N (hc_init c) (hc_ops c) in
+  let ok := negb (hc_desync c) && negb (hc_bad c) in
+  let corr := list_eqb hobs_eqb (model pinned) (hc_obs c) && ok in
+  let prop := ok && prop_hs_steps (hc_M c) (hc_init c) [] (hc_ops c) (hc_obs c) in
+  let waited := existsb (fun st => 0 <? h_waiting st) (hc_obs c) in
+  let reloaded := existsb (fun o => match o with HReload _ => true | _ => false end) (hc_ops c) in
+  (corr, prop,
+   if existsb (fun st => negb (is_nil (h_served st))) (hc_obs c) then (1 + bN waited 1 + bN reloaded 2)%N else 0%N,
+   if prop then 0%N else attribute pinned corr (fun q => prop_hs_steps (hc_M c) (hc_init c) [] (hc_ops c) (model q))).
+
+Definition explain_hs_with (pinned : quirks) (c : hs_case) :=
+  hs_model pinned (lstep pinned (linit pinned (hc_M c) (hc_init c)) LAcquire) [] 0%N (hc_init c) (hc_ops c).
 
 (** * group mq *)
 
